@@ -1448,7 +1448,12 @@ func (m *StateMachine) beginCommit(
 			"round", rlc.R,
 			"committing_hash", glog.Hex(vrv.VoteSummary.MostVotedPrecommitHash),
 		)
-		return
+
+		// Not a failure: we stay in commit wait, and handleCommitWaitViewUpdate
+		// makes the finalization request once the proposed header arrives.
+		// (A bare return here reported ok=false, which made beginRoundLive
+		// and therefore the whole kernel quit.)
+		return true
 	}
 
 	return gchan.SendC(
